@@ -330,17 +330,33 @@ def check_tangent(case, rec):
 
 @st.composite
 def solver_cases(draw):
+    # late_v: the Poisson ratio of the elastic law is given its value AFTER the behaviours are built (built with another one)
     return dict(beh=draw(cr.behaviour_specs(reducible=True)),
-                path=draw(cr.path_specs(max_segs=4, max_n=4, max_steps=12)))
+                path=draw(cr.path_specs(max_segs=4, max_n=4, max_steps=12)), late_v=draw(st.sampled_from([False, False, True])))
 
 
 def check_solvers(case, rec):
     spec, path = case["beh"], case["path"]
     Ne, nPg = int(path["Ne"]), int(path["nPg"])
     mode, dt = spec["mode"], float(spec["dt"])
-    fast = cr.build_behaviour(spec, Ne, solver="auto")
-    slow = cr.build_behaviour(spec, Ne, solver="newton")
-    fastT, slowT = cr.build_behaviour(spec, Ne, solver="auto"), cr.build_behaviour(spec, Ne, solver="newton")
+    late_v = bool(case.get("late_v")) and spec["elastic"]["kind"] in ("iso", "hetero")
+
+    def mk(solver):
+        if not late_v:
+            return cr.build_behaviour(spec, Ne, solver=solver)
+        # the behaviour is built on a law with another Poisson ratio, which is then set to its value: a parameter of the elastic
+        # law changed after construction (the final configuration is the one of the spec)
+        v = float(spec["elastic"]["v"])
+        s2 = dict(spec, elastic=dict(spec["elastic"], v=(0.1 if v >= 0.2 else 0.35)))
+        b = cr.build_behaviour(s2, Ne, solver=solver)
+        b.elastic.v = v
+        return b
+
+    if late_v:
+        rec.label("solvers:law_modified_after_construction")
+    fast = mk("auto")
+    slow = mk("newton")
+    fastT, slowT = mk("auto"), mk("newton")
     for b in (fastT, slowT):
         b._tol = 1e-13
         b._planeStress_tol = 1e-13
